@@ -183,8 +183,8 @@ pub fn prop() -> Prop {
         describe,
         rule: "small generated games x profiles (injected or solver output) x thresholds from {-inf, -1, 0, a probability of the profile, its neighbours next_up/next_down, mid-points, 1, 2, +inf, random}; oracle: per-infoset model (support = actions above h, proportional rescaling within 4 ulp, any distribution when nothing exceeds h), validity predicate of C13, unchanged below the smallest positive probability, idempotence (skipped when a probability is within 1e-9 relative of h). Non-trivial = some infoset loses an action or has no action above h; distinct by (tree, profile, h).",
         max_len: 700,
-        cases_quick: 40_000,
-        cases_thorough: 1_000_000,
+        cases_quick: 2_000_000,
+        cases_thorough: 25_000_000,
         assumptions: &["idempotence is an exact-arithmetic claim; not asserted within 1e-9 relative of a probability"],
         post: None,
         watchdog_s: 60,
